@@ -76,6 +76,6 @@ def run(ctx):
     ss = [(a, s) for a, s in c14.single_shot_bodies(facts) if 'open' in a.body.key.rsplit('::', 1)[-1]]
     rep.floor('R06.4', 'single-shot opening functions', len(ss), 2 if alloc else 1)
     for a, setups in ss:
-        c14.check_single_shot(rep, facts, a, setups, rule='R06.4')
+        c14.check_single_shot(rep, facts, a, setups, rule='R06.4', integrity_only=True)
     rep.bodies_analysed = len(facts.body_list)
     rep.call_sites = sum(len(get_an(facts, b.key).calls()) for b in facts.body_list)
